@@ -787,3 +787,37 @@ func dhGenSeals(r *rand.Rand, doc W) [][]any {
 	}
 	return out
 }
+
+// dhAcyclic: the nodes reachable from n form a finite tree / DAG (no container or list contains itself).  Observing
+// a cyclic document recurses without end — inside the library as well — and a stack overflow cannot be recovered,
+// so results of calls that were given shared node objects are checked with this first.
+func dhAcyclic(n dom.Node) bool {
+	onPath := map[uintptr]bool{}
+	var walk func(n dom.Node, depth int) bool
+	walk = func(n dom.Node, depth int) bool {
+		if n == nil || n.IsLeaf() {
+			return true
+		}
+		id := nodeID(n)
+		if onPath[id] || depth > 2000 {
+			return false
+		}
+		onPath[id] = true
+		defer delete(onPath, id)
+		if n.IsContainer() {
+			for _, e := range n.(dom.Container).Children() {
+				if !walk(e, depth+1) {
+					return false
+				}
+			}
+			return true
+		}
+		for _, e := range n.(dom.List).Items() {
+			if !walk(e, depth+1) {
+				return false
+			}
+		}
+		return true
+	}
+	return walk(n, 0)
+}
